@@ -17,6 +17,7 @@ import Spec.Pcf
 import Spec.Resolve
 import Spec.JsonEnc
 import Model.Json
+import Model.Load
 
 open Lean Wire
 
@@ -196,6 +197,14 @@ def handle (j : Json) : String :=
       match Spec.jsonEncode (fun f bs v => Spec.choose f env o.strict o.disableTuple bs v) FUEL env s (getV j "value") with
       | none => "{\"none\":true}"
       | some v => "{\"ok\":" ++ ofVal v ++ "}"
+  | "inject" =>
+    let inner := getV j "inner"
+    let innerName := match inner with
+      | .dict kv => (match dictGetV kv "name" with | some (.str n) => n | _ => "")
+      | _ => ""
+    match Load.inject FUEL inner innerName (getV j "outer") "" false with
+    | .error e => errOut e
+    | .ok (v, b) => "{\"ok\":" ++ ofVal v ++ ",\"injected\":" ++ (if b then "true" else "false") ++ "}"
   | "spec.choose" =>
     match parseReq j with
     | .error e => "{\"perr\":\"" ++ e.name ++ "\"}"
